@@ -267,9 +267,10 @@ def providerEvents (m : List Event) (rejected : List ID) (f : SMap) (e : Event) 
     | some r => [r]
     | none => fallback m rejected e k)
 
-/-- one iterative-auth step: the event is applied iff the auth rules allow it against those events -/
+/-- one iterative-auth step: the event is applied iff the auth rules allow it against those events — the verdict of the
+    standalone `Allowed`, which refuses auth events from different rooms (`Valid()`) -/
 def authStep (m : List Event) (rejected : List ID) (f : SMap) (e : Event) : SMap :=
-  match allowedFreshNoValid e (Provider.ofEvents (providerEvents m rejected f e)) false with
+  match allowedFresh e (Provider.ofEvents (providerEvents m rejected f e)) false with
   | .ok => applyOne f e
   | _ => f
 
